@@ -44,6 +44,7 @@ class StepClock:
         self.pending_exc = None
         self.swallowed_by = None
         self.via = []
+        self.via_last = None
         self.last_unwind = None
         self.budget = None
         self.kill_at = None
@@ -89,10 +90,16 @@ class StepClock:
                 self.pending_unwind = True
                 if exc is not self.pending_exc:
                     self.via = []
+                    self.via_last = None
                 self.pending_exc = exc
                 self.last_unwind = type(exc).__name__
-        elif exc is self.pending_exc and fn.startswith(self.prefixes) and len(self.via) < 6:
-            self.via.append(code.co_qualname)
+        elif exc is self.pending_exc and fn.startswith(self.prefixes):
+            # vyxal frames the exception passes through on its way out; the LAST one before it is handled is the
+            # carrier: the function sitting directly under the C-level iterator (filter / map / sorted / accumulate)
+            if len(self.via) < 6:
+                self.via.append(code.co_qualname)
+            if code.co_qualname not in ("safe_apply", "LazyList.__next__"):
+                self.via_last = code.co_qualname
 
     def _line(self, code, line):
         k = self._known.get(code)
@@ -126,6 +133,7 @@ class StepClock:
         self.pending_exc = None
         self.swallowed_by = None
         self.via = []
+        self.via_last = None
         self.last_unwind = None
         self.budget = budget
         self.kill_at = kill_at
